@@ -498,6 +498,11 @@ V("init-indices-astype-not-other-props", "neutral", ["C01", "C08", "C13", "C15"]
   "self.dom_indices_arr = np.array(self.dom_indices_lst, dtype=np.uint16)", "self.dom_indices_arr = np.asarray(self.dom_indices_lst).astype(np.uint16)",
   "the wrapping conversion is a capacity matter (C19) only: in range, the arrays are identical")
 
+V("const-ground-collides", "break", ["C01", "C08", "C09"], "nucs/constants.py", "EVENT_MASK_GROUND = 1 << 2", "EVENT_MASK_GROUND = 1 << 1", "GROUND shares the MAX bit", "<module>")
+V("const-min-max-ground-partial", "break", ["C01", "C08", "C09"], "nucs/constants.py", "EVENT_MASK_MIN_MAX_GROUND = EVENT_MASK_MIN | EVENT_MASK_MAX | EVENT_MASK_GROUND", "EVENT_MASK_MIN_MAX_GROUND = EVENT_MASK_MIN | EVENT_MASK_GROUND",
+  "the three-way split announces MIN|GROUND only", "<module>")
+V("const-entailment-collides", "break", ["C07", "C01"], "nucs/constants.py", "PROP_ENTAILMENT = 2", "PROP_ENTAILMENT = 1", "consistent and entailed are the same answer", "<module>")
+
 # ------------------------------------------------------------------------------------------------ global state
 V("solver-init-skipped", "break", ["C15"], SV,
   "            problem.init()\n", "            if getattr(problem, 'triggers', None) is None:\n                problem.init()\n",
